@@ -1,6 +1,6 @@
 (* C09 - Task factories: inherited context, exact handle set, teardown waits, errors kept. *)
 From Coq Require Import List Bool Arith.
-From Asphalt Require Import Conc.Factory Conc.FactoryProofs Gen.Gen_service Gen.Gen_taskfactory.
+From Asphalt Require Import Conc.Factory Conc.FactoryProofs Conc.FactoryCancel Gen.Gen_service Gen.Gen_taskfactory.
 Import ListNotations.
 
 (* at every point of every run (any spawns, segments, cancellations, teardown moment, handler
@@ -25,6 +25,17 @@ Theorem C09_cancel_one : forall v s k j, j <> k -> ph s = Open ->
   tstate_of (fst (fire v s (GCancel k))) j = tstate_of s j.
 Proof. exact cancel_only_that_task. Qed.
 Print Assumptions C09_cancel_one.
+
+(* ... and it DOES end it, whenever it is called -- also straight after the spawn, before the task has run any of
+   its segments: the task has ended (its finished event is set), it is no longer listed, it has observed the
+   cancellation, and under every later schedule none of its segments runs *)
+Theorem C09_cancel_ends_the_task : forall v s k n, ph s = Open \/ ph s = Closing -> tstate_of s k = TRun n -> oncancel_of s k = None ->
+  let s' := fst (fire v s (GCancel k)) in
+  tstate_of s' k = TEnded /\ ~ In k (handles s') /\
+  (forall v', fire v' s' (GTask k) = (s', [])) /\
+  ~ In (Seg k) (snd (fire v s (GCancel k))) /\ In (CancelSeen k) (snd (fire v s (GCancel k))).
+Proof. exact cancelled_task_is_over. Qed.
+Print Assumptions C09_cancel_ends_the_task.
 
 (* an Exception that escapes a task while it is being cancelled is an escaping Exception *)
 Theorem C09_cancelled_task_raising : forall v s k e n, ph s = Open -> tstate_of s k = TRun n -> oncancel_of s k = Some e ->
